@@ -27,6 +27,7 @@ def run(rep):
         core = [s for s in fam if s['name'].startswith('chain3/mid/') and s['c08']['ending'] in ('exit-process2', 'raise-process2', 'stop-evt')]
         explore.explore(rep, 'core-d2', [{**s, 'dev_window': (100, 400)} for s in core], 2, ['fifo'], 'checks.oracles:oracle_c08', budget_s=1700)
 
+    rep.assumption('distinct_nontrivial = executions with pairwise different timed wire traces (every message sent / delivered / dropped with its virtual time), per scenario; distinct_outcomes = distinct per-filter process() input sequences per scenario')
     rep.set('traces_validated_against_impl', rep.coverage.get('evaluations', 0))
-    rep.set('distinct_nontrivial', rep.coverage.get('distinct_outcomes', 0))
+    rep.set('distinct_nontrivial', rep.coverage.get('distinct_timed_wire_traces', 0))
     rep.set('exhaustive', not rep.capped)
